@@ -150,7 +150,7 @@ func checkC16(r *Run) {
 		if err != nil {
 			failTool("fox.New: %v", err)
 		}
-		routes := []string{"/s/{x}/{y}", "/f/*{w}/end", "h.example/s/{x}", "/plain/route", "/wide/", "/tail/{x}/", "/f2/*{w}/rev/{id}/", "{n}.0.0.7/ip/{x}"}
+		routes := []string{"/s/{x}/{y}", "/f/*{w}/end", "h.example/s/{x}", "/plain/route", "/wide/", "/tail/{x}/", "/f2/*{w}/rev/{id}/", "{n}.0.0.7/ip/{x}", "/dot/{x}/b/"}
 		first := "abcdefghijklmnopqrstuvwxyz0123456789"
 		for i := 0; i < len(first); i++ {
 			routes = append(routes, fmt.Sprintf("%ctenant.example/t/{id}", first[i]), fmt.Sprintf("/wide/%c", first[i]), fmt.Sprintf("/wide%c", first[i]))
@@ -166,6 +166,8 @@ func checkC16(r *Run) {
 			{"unknown.example", "/plain/route"}, {"", "/plain/route"}, {"qtenant.example", "/t/7"}, {"9tenant.example", "/t/7"}, {"zz.example", "/s/a/b"},
 			{"", "/f2/a/b/rev/7"}, {"", "/f2/a/rev/7/"}, {"10.0.0.7", "/plain/route"}, {"web-0.cluster9", "/s/a/b"}, {"10.0.0.7", "/ip/1"}, {"[::1]", "/plain/route"},
 			{"", "/wide"}, {"", "/wide/"}, {"", "/wide/q"}, {"", "/wideq"}, {"", "/tail/x"}, {"unknown.example", "/tail/x"},
+			// dot segments captured by a wildcard, served through an ignored trailing slash (nothing is cleaned on that way)
+			{"", "/dot/./b"}, {"", "/dot/../b"}, {"", "/f/x/./y/end/"}, {"", "/tail/.."}, {"", "/dot/x/b"},
 		} {
 			u, err := url.ParseRequestURI(ex.target)
 			if err != nil {
@@ -184,6 +186,59 @@ func checkC16(r *Run) {
 			if allocs != 0 {
 				r.violation(fmt.Sprintf("alloc extra scenario host=%q target=%q", ex.host, ex.target), map[string]any{"kind": "vector", "routes": "parameters, infix catch-all, 36 hostnames, 36+36 static siblings", "host": ex.host, "target": ex.target,
 					"prescribed": "0 allocations per request", "obtained": allocs})
+			}
+		}
+	}
+	// routing by hand (Lookup, then Close) on the current tree and on views of a tree that has been replaced since:
+	// every view keeps recycling its contexts
+	{
+		rt, err := fox.New(fox.WithIgnoreTrailingSlash(true))
+		if err != nil {
+			failTool("fox.New: %v", err)
+		}
+		for _, p := range []string{"/s/{x}/{y}", "/f/*{w}/end", "/plain/route", "h.example/s/{x}"} {
+			rt.MustHandle("GET", p, h)
+		}
+		old := rt.Txn(false)
+		defer old.Abort()
+		wtx := rt.Txn(true)
+		wtx.Handle("GET", "/later/{z}", h)
+		snap := wtx.Snapshot()
+		wtx.Commit()
+		rt.MustHandle("GET", "/later2", h)
+		cur := rt.Txn(false)
+		defer cur.Abort()
+		type looker interface {
+			Lookup(w fox.ResponseWriter, r *http.Request) (*fox.Route, fox.ContextCloser, bool)
+		}
+		views := []struct {
+			name string
+			v    looker
+		}{{"Router", rt}, {"read-only transaction of the current tree", cur}, {"read-only transaction opened before two commits", old}, {"snapshot of a committed write transaction", snap}}
+		for _, target := range [][2]string{{"", "/s/a/b"}, {"", "/plain/route"}, {"h.example", "/s/a"}, {"", "/f/a/b/end/"}} {
+			inner, _ := newRequest("GET", target[0], target[1], "")
+			for _, vw := range views {
+				allocs := -1.0
+				rt.MustHandle("GET", "/measure", func(c fox.Context) {
+					run := func() {
+						if rte, cc, _ := vw.v.Lookup(c.Writer(), inner); rte != nil {
+							cc.Close()
+						}
+					}
+					for k := 0; k < 4; k++ {
+						run()
+					}
+					allocs = testing.AllocsPerRun(10, run)
+				})
+				mreq, _ := newRequest("GET", "", "/measure", "")
+				rt.ServeHTTP(w, mreq)
+				rt.Delete("GET", "/measure")
+				scenarios++
+				kinds["lookup-close: "+vw.name] = true
+				if allocs != 0 {
+					r.violation(fmt.Sprintf("alloc Lookup+Close view=%q host=%q target=%q", vw.name, target[0], target[1]), map[string]any{"kind": "vector", "view": vw.name, "host": target[0], "target": target[1],
+						"prescribed": "0 allocations per Lookup and Close", "obtained": allocs})
+				}
 			}
 		}
 	}
